@@ -379,3 +379,22 @@ PROPS["C16"] = dict(
     strength="partial: equivalence with the default flavour at operation granularity for unguarded histories; the lock itself is modelled, guarded histories and thread schedules of the async flavour are not forced",
     level_text="Coq theorems: except for the count functions the async-flavour model is the default-flavour model call by call, hence refines the same specification (C01-C03 transfer); in the permit-semaphore model of tokio's RwLock an acquire with nothing held or queued succeeds at once, and a queued writer is woken when the holders release. Tied to the crate by running the C01-C03 histories on the async API with every future polled once, against the model and against the specification oracle.",
     level_note="PARTIAL. Trusted: as C01, plus tokio's RwLock as a permit semaphore. The count functions differ (F8, see C19).")
+
+
+# ---------------------------------------------------------------- C20 ownership
+def c20_streams(tier, rng):
+    q = tier == "quick"
+    n = 4000 if q else 150000
+    return [Stream("ledger", "own", gens.own_cases(rng, n), lambda c, o: True, False,
+                   "%d seeded random histories (vector mutators, entry traversals, transactions, subscribers of both flavours with and without adapter stacks head/tail/skip/filter/sort, lag, drops in any order, an Observable turned SharedObservable with clones and subscribers) run with an instrumented element type: instance ledger checks no second drop, no read after drop, nothing alive at the end" % n,
+                   lambda c, o: c.split(" :: ")[0], oracles={"nodoubledrop", "noleak", "usealive"})]
+
+
+PROPS["C20"] = dict(
+    streams=c20_streams,
+    trusted=[KERNEL, EXTRACTION, CORR, "the instance ledger (thread-local HashSet keyed by a per-instance id) of the harness",
+             "undefined behaviour of unsafe code cannot be exhibited by a Gallina model: the protocol of the unsafe sites is proved in a token model, the end-to-end statement is checked by the ledger on the real crates (thorough tier: additionally under miri when available)"],
+    assumptions=["exact clone counts are not predicted (imbl shares structure)"],
+    strength="partial: ownership protocol of the three unsafe sites proved in a token model; end-to-end exactly-once / no-leak checked, not proved",
+    level_text="Coq theorems on a token model of the three unsafe sites: ReusableBoxFuture::set drops the old future exactly once and installs (or, on the unwinding mismatch path, drops) the new one exactly once on every path incl. a panicking destructor; Observable::into_shared moves the state exactly once without running Drop; the unreachable_unchecked arm of the YieldBatch swap is unreachable; the ledger used by the check is sound. The end-to-end property is checked by running random histories over observable, vector, subscribers and adapter stacks with an instrumented element type.",
+    level_note="PARTIAL: a proof about machine-level double drops / leaks is outside what an executable Gallina model can express; stated in DESIGN.md §10.")
